@@ -180,6 +180,10 @@ func c15Init() {
 			vars := []string{ps.orig + " " + c15Marker, ps.orig + c15Marker, ps.orig + "é" + c15Marker, "é" + c15Marker,
 				// one metacharacter, directly after a letter outside ASCII or after a digit
 				ps.orig + "é'MRK", "表;MRK", ps.orig + "é MRK", ps.orig + "٣)MRK", ps.orig + "1'MRK", "é\"é;é é)MRK"}
+			if strings.HasSuffix(ps.desc, ".type") && strings.Contains(ps.desc, ".table.columns.") {
+				// a type written with a modifier, and more after it
+				vars = append(vars, ps.orig+"(78,0)); "+c15Marker, "numeric(78,0)); drop table x; -- MRK", "varchar(66) MRK", ps.orig+"[] ; MRK", ps.orig+"(1)MRK")
+			}
 			if strings.Contains(ps.desc, ".table.index.") || strings.Contains(ps.desc, ".table.unique.") {
 				vars = append(vars, ps.orig+" desc "+c15Marker, ps.orig+" asc) ; "+c15Marker)
 			}
